@@ -17,7 +17,8 @@ VARIABLES l,      \* next line to consume
           bid,    \* behaviour id
           shp,    \* shape id of the behaviour (relational memory is kept per shape)
           ok,     \* behaviour has a registered (generated + compiled) root type
-          M,      \* built message of the root (spec's generator model)
+          M,      \* built message of the root: the documented mapping (Contract)
+          Mi,     \* built message with the named deviations of the current tree (Impl model, drift only)
           tt,     \* Terraform type of the REAL schema
           ev,     \* properties to evaluate for this behaviour
           obj, tf,\* the session state: Go struct value and Terraform object (REAL, as recorded)
@@ -26,10 +27,10 @@ VARIABLES l,      \* next line to consume
           pm,     \* pair memory: key |-> sequence of recorded post-states of the base behaviour
           pr      \* pairing of the current behaviour: [key, role, clause, maskattrs, maskfields, step]
 
-vars == <<l, bid, shp, ok, M, tt, ev, obj, tf, aux, gm, pm, pr>>
+vars == <<l, bid, shp, ok, M, Mi, tt, ev, obj, tf, aux, gm, pm, pr>>
 
 NoGM == [grp |-> "", s |-> EmptyFn, sch |-> EmptyFn]
-NoPR == [key |-> "", role |-> "", clause |-> "", prop |-> "", maskattrs |-> <<>>, maskfields |-> <<>>, step |-> 0]
+NoPR == [key |-> "", role |-> "", clause |-> "", prop |-> "", occ |-> <<>>, step |-> 0]
 
 Line == TraceLog[l]
 NilObject == VObj(FALSE, FALSE, EmptyFn, EmptyFn, TRUE)
@@ -63,13 +64,65 @@ ReportE(viol, drift, what, evald) ==
 Wanted == {ev[i] : i \in DOMAIN ev}
 
 Init ==
-  /\ l = 1 /\ bid = "" /\ shp = "" /\ ok = FALSE /\ M = NoBuilt /\ tt = TNone /\ ev = <<>>
+  /\ l = 1 /\ bid = "" /\ shp = "" /\ ok = FALSE /\ M = NoBuilt /\ Mi = NoBuilt /\ tt = TNone /\ ev = <<>>
   /\ obj = Nil /\ tf = NilObject /\ aux = NoAux /\ gm = NoGM /\ pm = EmptyFn /\ pr = NoPR
   /\ TLCSet(2, 0) /\ TLCSet(3, 0)
 
 IsEvent(e) == l <= Len(TraceLog) /\ Line.ev = e /\ l' = l + 1
 
 SchemaTT(schema) == TObj([n \in DOMAIN schema.attrs |-> schema.attrs[n].type])
+
+\* ---- behaviours paired line by line (same vectors through two generated variants)
+\* occurrences of the field addressed by key (full path or Message.field): attribute path and Go field path
+RECURSIVE Occ(_, _, _, _)
+Occ(Mm, key, ap, gp) ==
+  UNION { LET F == Mm.fields[i]
+              hit == F.path = key \/ F.tn = key
+          IN (IF hit THEN {[ap |-> ap \o <<F.attr>>, gp |-> gp \o F.gopath]} ELSE {})
+             \cup (IF F.msg # NoMsg /\ ~hit THEN Occ(SubOf(F), key, ap \o <<F.attr>>, gp \o F.gopath) ELSE {})
+        : i \in DOMAIN Mm.fields }
+
+RECURSIVE DropT(_, _)
+DropT(t, path) ==
+  CASE t.k = "obj" -> IF Head(path) \notin DOMAIN t.at THEN t
+                      ELSE IF Len(path) = 1 THEN [t EXCEPT !.at = Drop(@, Head(path))]
+                      ELSE [t EXCEPT !.at = [@ EXCEPT ![Head(path)] = DropT(@, Tail(path))]]
+    [] t.k \in {"list", "map"} -> [t EXCEPT !.et = DropT(@, path)]
+    [] OTHER -> t
+RECURSIVE DropV(_, _)
+DropV(tv, path) ==
+  CASE tv.k = "obj" ->
+         LET t1 == IF Head(path) \notin DOMAIN tv.at THEN tv.at
+                   ELSE IF Len(path) = 1 THEN Drop(tv.at, Head(path)) ELSE [tv.at EXCEPT ![Head(path)] = DropT(@, Tail(path))]
+             a1 == IF Head(path) \notin DOMAIN tv.attrs THEN tv.attrs
+                   ELSE IF Len(path) = 1 THEN Drop(tv.attrs, Head(path)) ELSE [tv.attrs EXCEPT ![Head(path)] = DropV(@, Tail(path))]
+         IN [tv EXCEPT !.at = t1, !.attrs = a1]
+    [] tv.k = "list" -> [tv EXCEPT !.elems = [i \in DOMAIN tv.elems |-> DropV(tv.elems[i], path)], !.et = DropT(@, path)]
+    [] tv.k = "map" -> [tv EXCEPT !.mels = [key \in DOMAIN tv.mels |-> DropV(tv.mels[key], path)], !.et = DropT(@, path)]
+    [] OTHER -> tv
+RECURSIVE ZeroG(_, _)
+ZeroG(g, path) ==
+  CASE g.t = "st" -> IF Head(path) \notin DOMAIN g.f THEN g
+                     ELSE IF Len(path) = 1 THEN St([g.f EXCEPT ![Head(path)] = Nil])
+                     ELSE St([g.f EXCEPT ![Head(path)] = ZeroG(@, Tail(path))])
+    [] g.t = "ptr" -> Ptr(ZeroG(g.p, path))
+    [] g.t = "seq" -> SeqV([i \in DOMAIN g.e |-> ZeroG(g.e[i], path)])
+    [] g.t = "map" -> MapV([key \in DOMAIN g.m |-> ZeroG(g.m[key], path)])
+    [] g.t = "one" -> One(g.b, ZeroG(g.w, path))
+    [] OTHER -> g
+RECURSIVE PresentAt(_, _)
+PresentAt(tv, path) ==
+  CASE tv.k = "obj" -> Head(path) \in DOMAIN tv.attrs /\ (Len(path) = 1 \/ PresentAt(tv.attrs[Head(path)], Tail(path)))
+    [] tv.k = "list" -> \E i \in DOMAIN tv.elems : PresentAt(tv.elems[i], path)
+    [] tv.k = "map" -> \E key \in DOMAIN tv.mels : PresentAt(tv.mels[key], path)
+    [] OTHER -> FALSE
+
+RECURSIVE MaskSnap(_, _)
+MaskSnap(sn, occ) ==
+  IF occ = <<>> THEN sn
+  ELSE MaskSnap([sn EXCEPT !.obj = ZeroG(@, Head(occ).gp), !.tf = DropV(@, Head(occ).ap)], Tail(occ))
+
+RawSnap == [obj |-> Line.obj, tf |-> Line.tf, dg |-> DgSet(Line.diags), pn |-> Line.panic # ""]
 
 \* ---- relational clauses over the runs of a group: the same key must carry the same value
 \* entries this run contributes: <<key, value, clause>>
@@ -107,6 +160,7 @@ TraceReset ==
             \cup (IF "C12" \in W THEN C12Exact(d, cfg, gen) ELSE {})
             \cup (IF "C18" \in W THEN C18Run(d, cfg, gen) ELSE {})
             \cup (IF "C16" \in W THEN C16Fault(cfg, gen) ELSE {})
+            \cup (IF "C13" \in W THEN C13Run(cfg, gen) ELSE {})
             \cup (IF "C02" \in W THEN C02Of(sd) ELSE {})
             \cup (IF "C10" \in W THEN C10Of(sd) ELSE {})
             \cup (IF "C11" \in W THEN {[x EXCEPT !.sig = x.c \o " " \o @, !.c = "C11.only_addressed"] : x \in sd} ELSE {})
@@ -118,6 +172,7 @@ TraceReset ==
         /\ shp' = meta.shape
         /\ ok' = reg
         /\ M' = b.m
+        /\ Mi' = BuildRootImpl(d, cfg, meta.root).m
         /\ tt' = SchemaTT(Line.schema)
         /\ ev' = meta.eval
         /\ obj' = b.m.zero
@@ -126,54 +181,35 @@ TraceReset ==
         /\ aux' = IF meta.shape = shp THEN [NoAux EXCEPT !.memo = aux.memo] ELSE NoAux
         /\ gm' = [mem EXCEPT !.s = PutAll(@, {<<e[1], e[2]>> : e \in entries}),
                              !.sch = IF reg /\ SchemaChecks(meta) # {} /\ skey \notin DOMAIN @ THEN Put(@, skey, Line.schema) ELSE @]
-        /\ pm' = IF meta.group # "" /\ meta.group = gm.grp THEN pm ELSE EmptyFn
+        \* the harness writes a base behaviour immediately before its variants: only one base is remembered
+        /\ pm' = IF meta.pair.role = "base" \/ meta.group = "" \/ meta.group # gm.grp THEN EmptyFn ELSE pm
         /\ pr' = [key |-> meta.pair.key, role |-> meta.pair.role, clause |-> meta.pair.clause, prop |-> meta.pair.prop,
-                  maskattrs |-> meta.pair.maskattrs, maskfields |-> meta.pair.maskfields, step |-> 0]
-        /\ ReportE(viol, reg /\ SchemaTT(Line.schema) # b.m.tt, "schema type vs model",
-                   {p \in {"C01", "C12", "C18", "C16"} : p \in W} \cup {p \in {"C02", "C10", "C11", "C17"} : p \in W /\ reg}
+                  occ |-> IF meta.pair.exclkey = "" THEN <<>>
+                          ELSE LET bb == BuildRoot(d, [cfg EXCEPT !.exclude = <<>>], meta.root)
+                               IN IF bb.ok THEN SetToSeq(Occ(bb.m, meta.pair.exclkey, <<>>, <<>>)) ELSE <<>>,
+                  step |-> 0]
+        /\ ReportE(viol, reg /\ SchemaTT(Line.schema) # BuildRootImpl(d, cfg, meta.root).m.tt, "schema type vs model",
+                   {p \in {"C01", "C12", "C18", "C16", "C13"} : p \in W} \cup {p \in {"C02", "C10", "C11", "C17"} : p \in W /\ reg}
                    \cup {meta.gchecks[i].p : i \in DOMAIN meta.gchecks}
                    \cup {p \in {"C14", "C15", "C16"} : p \in W /\ cfg.alts # <<>>})
-
-\* ---- behaviours paired line by line (same vectors through two generated variants)
-RECURSIVE MaskTT(_, _)
-RECURSIVE MaskT(_, _)
-MaskT(tv, names) ==
-  CASE tv.k = "obj" -> [tv EXCEPT !.attrs = [a \in DOMAIN tv.attrs \ names |-> MaskT(tv.attrs[a], names)],
-                                  !.at = [a \in DOMAIN tv.at \ names |-> MaskTT(tv.at[a], names)]]
-    [] tv.k = "list" -> [tv EXCEPT !.elems = [i \in DOMAIN tv.elems |-> MaskT(tv.elems[i], names)], !.et = MaskTT(tv.et, names)]
-    [] tv.k = "map" -> [tv EXCEPT !.mels = [key \in DOMAIN tv.mels |-> MaskT(tv.mels[key], names)], !.et = MaskTT(tv.et, names)]
-    [] OTHER -> tv
-MaskTT(t, names) ==
-  CASE t.k = "obj" -> [t EXCEPT !.at = [a \in DOMAIN t.at \ names |-> MaskTT(t.at[a], names)]]
-    [] t.k \in {"list", "map"} -> [t EXCEPT !.et = MaskTT(t.et, names)]
-    [] OTHER -> t
-RECURSIVE MaskG(_, _)
-MaskG(g, names) ==
-  CASE g.t = "st" -> St([n \in DOMAIN g.f |-> IF n \in names THEN Nil ELSE MaskG(g.f[n], names)])
-    [] g.t = "ptr" -> Ptr(MaskG(g.p, names))
-    [] g.t = "seq" -> SeqV([i \in DOMAIN g.e |-> MaskG(g.e[i], names)])
-    [] g.t = "map" -> MapV([key \in DOMAIN g.m |-> MaskG(g.m[key], names)])
-    [] g.t = "one" -> One(g.b, MaskG(g.w, names))
-    [] OTHER -> g
-
-PairSnap == [obj |-> MaskG(Line.obj, {pr.maskfields[i] : i \in DOMAIN pr.maskfields}),
-             tf |-> MaskT(Line.tf, {pr.maskattrs[i] : i \in DOMAIN pr.maskattrs}),
-             dg |-> DgSet(Line.diags), pn |-> Line.panic # ""]
 
 \* every other line: an action of the session machine whose post-state is the RECORDED one
 TraceStep(e) ==
   /\ IsEvent(e) /\ ok
   /\ obj' = Line.obj /\ tf' = Line.tf
-  /\ UNCHANGED <<bid, shp, ok, M, tt, ev, gm>>
+  /\ UNCHANGED <<bid, shp, ok, M, Mi, tt, ev, gm>>
   /\ LET pn == Line.panic # ""
-         snap == PairSnap
+         snap == RawSnap
          k == pr.step + 1
-         pairViol == IF pr.key # "" /\ pr.role = "variant" /\ pr.key \in DOMAIN pm /\ k <= Len(pm[pr.key]) /\ pm[pr.key][k] # snap
-                     THEN {VG(pr.clause, pr.key)} ELSE {}
-         pairEval == IF pr.key # "" /\ pr.role = "variant" /\ pr.key \in DOMAIN pm /\ k <= Len(pm[pr.key]) THEN {pr.prop} ELSE {}
+         paired == pr.key # "" /\ pr.role = "variant" /\ pr.key \in DOMAIN pm /\ k <= Len(pm[pr.key])
+         pairViol == (IF paired /\ MaskSnap(pm[pr.key][k], pr.occ) # MaskSnap(snap, pr.occ) THEN {VG(pr.clause, pr.key)} ELSE {})
+                     \* an excluded field has no attribute anywhere in what CopyTo writes
+                     \cup (IF paired /\ e = "CopyTo" /\ \E i \in DOMAIN pr.occ : PresentAt(Line.tf, pr.occ[i].ap)
+                           THEN {VG("C11.excl.to_absent", pr.key)} ELSE {})
+         pairEval == IF paired THEN {pr.prop} ELSE {}
          j == Judge(e, Wanted, M, tt, aux, [pobj |-> obj, ptf |-> tf, obj |-> Line.obj, tf |-> Line.tf, dg |-> Line.diags, pn |-> pn, conv |-> Line.conv])
-         toR == ToMsg(M, obj, tf)
-         fromR == FromMsg(M, tf, obj)
+         toR == ToMsg(Mi, obj, tf)
+         fromR == FromMsg(Mi, tf, obj)
          drift ==
            CASE e = "SetObj" -> Line.tf # tf
              [] e = "FreshObj" -> Line.obj # M.zero \/ Line.tf # tf
@@ -196,7 +232,7 @@ TraceStep(e) ==
 \* a behaviour whose root type was not generated / did not compile: its lines are skipped
 TraceSkip ==
   /\ l <= Len(TraceLog) /\ Line.ev # "Reset" /\ ~ok /\ l' = l + 1
-  /\ UNCHANGED <<bid, shp, ok, M, tt, ev, obj, tf, aux, gm, pm, pr>>
+  /\ UNCHANGED <<bid, shp, ok, M, Mi, tt, ev, obj, tf, aux, gm, pm, pr>>
   /\ TLCSet(2, l)
 
 Next == \/ TraceReset \/ TraceSkip
